@@ -78,7 +78,9 @@ def strategy(tier, repeat=None):
                   body_max=3, moddoc_indent=st.one_of(st.just(""), st.just(""), st.text(alphabet=" \t", max_size=12)))
     if repeat is not None:
         p.p_doc_mostly = True
-    return st.fixed_dictionaries({"module": G.module(p, repeat), "layout": G.layout_choices(24)})
+    return st.fixed_dictionaries({"module": G.module(p, repeat), "layout": G.layout_choices(24),
+                                  # parameter-name strip patterns (they shape signatures; doc text stays as written)
+                                  "strip": st.sampled_from(["", "", "^[a-z]", "^_?[a-zA-Z]+_", "[0-9]+$"])})
 
 
 def _owners(module):
@@ -228,7 +230,8 @@ def prepare(module):
         it.pop("_shared", None)
         d = it.get("doc")
         if d:
-            p0 = it["impl"]["params"][0] if it["k"] == "member" and it["impl"]["params"] else "x"
+            p0 = it["impl"]["params"][0] if it["k"] == "member" and it["impl"]["params"] else \
+                it["params"][0] if it["k"] == "func" and it["params"] and it["params"][0].isidentifier() else "x"
             d["lines"] = [l.replace("<<P0>>", p0).replace("<<HDR>>", "@module") for l in d["lines"]]
         di = it["impl"].get("doc") if "impl" in it else None
         if di:
@@ -265,7 +268,10 @@ def evaluate(case):
         res.labels.append("same-doc-on-class-and-member")
     if nt:
         res.sample = {"source": short(src, 700)}
-    run = document_text(src, real_settings())
+    strip = case.get("strip") or ""
+    if strip:
+        res.labels.append("strip-pattern-configured")
+    run = document_text(src, real_settings(M.MSettings(strip_function=strip, strip_macro=strip, strip_member=strip)))
     if run.exc is not None:
         res.fail(exc_key(run.exc), repr(run.exc)[:300])
         return res
